@@ -361,6 +361,12 @@ func catalog(p ScenParams) *WSpec {
 			ps.Kind = "func"
 			ps.WriteIdiom = true
 		}
+	case "defaultout-e": // process e has NO SetOut: its output name is the default one (which contains the task's tags)
+		if ps := w.proc("e"); ps != nil {
+			for i := range ps.Outs {
+				ps.Outs[i].Pattern = "default:" + ps.Outs[i].Name
+			}
+		}
 	case "appendout": // p's command appends to its output (>>): it relies on starting in an EMPTY working directory
 		if ps := w.proc("p"); ps != nil {
 			ps.Kind = "cmd"
